@@ -1,7 +1,7 @@
 (* C17/GenOk.v — obligations tying the hand model to data re-read from /repo on every run
    (gen/GenTags.v, translator/cmd/tags). *)
 From Coq Require Import ZArith String List Bool.
-From Verif Require Import C17.Model.
+From Verif Require Import C17.Model C17.Spec.
 From VerifGen Require Import GenTags.
 Import ListNotations.
 Open Scope string_scope.
@@ -40,3 +40,8 @@ Proof.
   unfold uninteresting_tags.
   repeat (constructor; [cbn; intuition discriminate|]). constructor.
 Qed.
+
+(* the table of the code is the published set of uninteresting keys *)
+Lemma uninteresting_is_published :
+  all_in uninteresting_tags published_uninteresting && all_in published_uninteresting uninteresting_tags = true.
+Proof. vm_compute. reflexivity. Qed.
